@@ -107,9 +107,84 @@ Theorem C05_err_unchanged_remove_substituent_partial : forall s s1 s2 l s', Inv 
 Proof. exact rs_err_unchanged. Qed.
 Print Assumptions C05_err_unchanged_remove_substituent_partial.
 
-(* ---- every correspondence case the kernel accepts is an instance of the theorems above *)
+(* ---- shared Atom objects.  The Atom objects of a molecule can be listed by other containers too: a
+        Substructure view (bond operations are defined on it), a Conformer of an ensemble, or any container
+        that was built from / handed the same objects without copying and thereby ADOPTED them (their parent
+        pointer now names that container, or nothing once it is gone).  Whether an atom belongs to the
+        molecule is a question about the molecule's atom LIST, never about that pointer:
+          own_all s  =  s with every atom's parent pointer reset to "this molecule";
+          AInv s     =  Inv (own_all s): everything Inv says except the atoms' parent pointers. *)
+From Molli Require Import Proofs.MolEditView.
+
+(* no operation decides anything from an atom's parent pointer ... *)
+Theorem C05_membership_not_by_parent : forall s o, step (own_all s) o = rmap own_all (step s o).
+Proof. exact step_parent_blind. Qed.
+Print Assumptions C05_membership_not_by_parent.
+
+(* ... and no operation re-points an atom that is already there *)
+Theorem C05_no_op_repoints_atoms : forall s o s', (step s o = Ok s' \/ step s o = Err s') ->
+  forall a, In a (atoms s') -> In a (atoms s) \/ a_par a = OThis.
+Proof. exact step_atoms_frame. Qed.
+Print Assumptions C05_no_op_repoints_atoms.
+
+(* a bond operation through a Substructure view leaves the molecule exactly as it was *)
+Theorem C05_view_op_frame : forall s va o s',
+  (xstep s (ViaSub va o) = Ok s' \/ xstep s (ViaSub va o) = Err s') -> s' = s.
+Proof. exact via_sub_same. Qed.
+Print Assumptions C05_view_op_frame.
+
+Theorem C05_aligned_spelled : forall s, AInv s ->
+  length (coords s) = length (atoms s) /\
+  (if has_q s then length (charges s) = length (atoms s) /\ Forall numeric (charges s) else charges s = []) /\
+  NoDup (ids s) /\
+  (forall a, In a (atoms s) -> (a_id a < next_a s)%positive) /\
+  NoDup (bids s) /\
+  (forall b, In b (bonds s) ->
+     b_par b = OThis /\ (b_id b < next_b s)%positive /\ In (b_a1 b) (ids s) /\ In (b_a2 b) (ids s)).
+Proof. exact AInv_spelled. Qed.
+Print Assumptions C05_aligned_spelled.
+
+(* alignment is preserved by every step of the extended alphabet (edit of the molecule / bond operation
+   through a view / adoption of some of its atoms by another container), whether it returns or raises,
+   hence after every interleaved history; surviving atoms keep their row and charge *)
+Theorem C05_aligned_xstep : forall s x s', AInv s -> (xstep s x = Ok s' \/ xstep s x = Err s') -> AInv s'.
+Proof. exact ainv_xstep. Qed.
+Print Assumptions C05_aligned_xstep.
+
+Theorem C05_aligned_xhistory : forall s h s', AInv s -> xrun s h = Some s' ->
+  AInv s' /\
+  (forall y, In y (ids s) -> In y (ids s') -> row_of s' y = row_of s y) /\
+  (forall y, In y (ids s') -> In y (ids s) \/ (next_a s <= y)%positive).
+Proof. exact ainv_xhistory. Qed.
+Print Assumptions C05_aligned_xhistory.
+
+(* an atom reports another parent only if some container adopted it during the history; with no adoption the
+   FULL invariant holds after every history, view operations included *)
+Theorem C05_parents_xhistory : forall s h s', Inv s -> xrun s h = Some s' ->
+  forall a, In a (atoms s') -> a_par a = OThis \/ In (a_id a) (adopted h).
+Proof. exact xrun_parents. Qed.
+Print Assumptions C05_parents_xhistory.
+
+Theorem C05_inv_xhistory_no_adoption : forall s h s', Inv s -> xrun s h = Some s' -> adopted h = [] -> Inv s'.
+Proof. exact xrun_no_adoption. Qed.
+Print Assumptions C05_inv_xhistory_no_adoption.
+
+Theorem C05_xrun_own : forall h s, xrun s (map Own h) = run s h.
+Proof. exact xrun_own. Qed.
+Print Assumptions C05_xrun_own.
+
+(* what `atom.parent is not self` in place of `atom not in self.atoms` does in append_bond: after an adoption
+   the adopted end is listed twice *)
+Theorem C05_membership_by_parent_refuted : forall s x y w, Inv s -> In x (ids s) -> w <> OThis ->
+  ~ AInv (append_bond_by_parent (adopt s [x] w) x y).
+Proof. exact by_parent_breaks. Qed.
+Print Assumptions C05_membership_by_parent_refuted.
+
+(* ---- every correspondence case the kernel accepts is an instance of the theorems above (the cases run
+        over the extended alphabet) *)
 Theorem C05_check_case_sound : forall c, check_case c = true ->
-  Inv (fst c) /\ exists s', run (fst c) (map fst (snd c)) = Some s' /\ Inv s' /\ Keeps (fst c) s'.
+  Inv (fst c) /\ exists s', xrun (fst c) (map fst (snd c)) = Some s' /\ AInv s' /\ Keeps (fst c) (own_all s') /\
+    (forall a, In a (atoms s') -> a_par a = OThis \/ In (a_id a) (adopted (map fst (snd c)))).
 Proof. exact check_case_sound. Qed.
 Print Assumptions C05_check_case_sound.
 
@@ -136,6 +211,26 @@ Example C05_nonvacuous :
               /\ row_of s' 3%positive = Some (13%Z, Some (CNum 103%Z))
               /\ row_of s' 5%positive = Some (14%Z, Some (CNum 0%Z))) /\
   step ex_s0 (AppendBond 1%positive 9%positive) = Unspec.
+Proof. vm_compute. repeat split. eexists. repeat split. Qed.
+
+(* a view edit, an adoption of atoms 1 and 3 by a container that is then dropped, and ordinary edits touching
+   the adopted atoms: the molecule stays aligned, the adopted atoms keep reporting no parent, nothing is
+   listed twice; the parent-pointer test would list atom 1 twice *)
+Definition ex_xh : list xop :=
+  [ ViaSub [1%positive; 3%positive] (VConnect (ByIdx 0) (ByIdx 1));
+    ViaSub [1%positive; 2%positive] (VDelBond 2%positive 1%positive);
+    ViaSub [2%positive] (VConnect (ByIdx 0) (ByObj 1%positive));      (* atom 1 is not in this view: raises *)
+    Adopt [1%positive; 3%positive] ONone;
+    Own (Connect (ByObj 1%positive) (ByIdx 2)); Own (AppendBonds [(3%positive, 1%positive)]);
+    Own (AddAtom 7%N None (Some 14%Z) None); Own (DelAtom (ByObj 3%positive));
+    Own (AddHs [(1%positive, [21%Z])]) ].
+Example C05_shared_nonvacuous :
+  (exists s', xrun ex_s0 ex_xh = Some s' /\ ids s' = [1; 2; 4; 5]%positive
+              /\ map a_par (atoms s') = [ONone; OThis; OThis; OThis]
+              /\ inv_b (own_all s') = true /\ inv_b s' = false
+              /\ row_of s' 1%positive = Some (11%Z, Some (CNum 101%Z))) /\
+  xstep ex_s0 (ViaSub [1%positive] (VAppendBond 1%positive 2%positive)) = Unspec /\
+  inv_b (own_all (append_bond_by_parent (adopt ex_s0 [1%positive] ONone) 1%positive 2%positive)) = false.
 Proof. vm_compute. repeat split. eexists. repeat split. Qed.
 
 (* ---- the fuel of the model's private breadth-first search (remove_substituent) always suffices: each iteration
